@@ -170,8 +170,17 @@ fn chk_pair(ctx: &mut Ctx, key: &str, what: &str, q: usize, got: Option<(usize, 
     }
 }
 
+/// The same queries through the hand-written forwarding impls of Succ / Pred for references.
+fn via_ref<S: Succ<Input = usize, Output = usize> + Pred<Input = usize, Output = usize>>(s: S, q: usize) -> [Option<(usize, usize)>; 4] {
+    [s.succ(q), s.succ_strict(q), s.pred(q), s.pred_strict(q)]
+}
+
 fn chk_dict<H: AsRef<[usize]> + SelectUnchecked + SelectZeroUnchecked>(ctx: &mut Ctx, name: &str, ef: &EliasFano<H, Low>, s: &[usize], u: usize) {
     for q in queries(s, u) {
+        let direct = [ef.succ(q), ef.succ_strict(q), ef.pred(q), ef.pred_strict(q)];
+        if via_ref(ef, q) != direct || via_ref(&ef, q) != direct {
+            ctx.violation(&format!("C04|EliasFano<{name}>::<Succ/Pred through a reference>|wrong-answer"), format!("query {q}: calls through &EliasFano give {:?}, direct calls give {direct:?}", via_ref(ef, q)));
+        }
         let key = |c: &str| format!("C04|EliasFano<{name}>::{c}|wrong-answer");
         let io = ef.index_of(q);
         let present = s.binary_search(&q).is_ok();
